@@ -17,7 +17,7 @@ HERE = os.path.dirname(os.path.abspath(__file__))
 VERIF = os.path.dirname(HERE)
 REPO = os.environ.get("VERIF_REPO", "/repo")
 HPP = os.path.join(REPO, "source/include/gch/small_vector.hpp")
-GEN = os.path.join(VERIF, "lean", "SvModel", "Gen")
+GEN = os.environ.get("VERIF_GEN_DIR") or os.path.join(VERIF, "lean", "SvModel", "Gen")
 
 
 class Untranslatable(Exception):
@@ -1033,6 +1033,89 @@ GENERATORS = [('Growth', gen_growth), ('Guards', gen_guards), ('Policy', gen_pol
               ('Layout', gen_layout), ('NoexceptFlags', gen_noexcept_flags), ('Calls', gen_calls)]
 
 
+TOP = re.compile(r'^(?:@\[[^\]]*\]\s*)?(def|abbrev|theorem|structure|inductive|instance)\s+([^\s:({\[]+)')
+
+
+def lean_blocks(text):
+    """split a generated file into its top-level items: [(name | None, text)], doc comments attached to their item"""
+    lines = text.split('\n')
+    blocks, cur, name = [], [], None
+    pending_doc = []
+    in_doc = False
+    for ln in lines:
+        starts_item = bool(TOP.match(ln))
+        starts_doc = ln.startswith('/--')
+        boundary = starts_item or starts_doc or ln.startswith(('namespace ', 'end ', 'import ', '-- ', 'open '))
+        if in_doc:
+            pending_doc.append(ln)
+            if '-/' in ln:
+                in_doc = False
+            continue
+        if boundary:
+            if starts_doc:
+                if cur:
+                    blocks.append((name, '\n'.join(cur)))
+                    cur, name = [], None
+                pending_doc = [ln]
+                in_doc = '-/' not in ln
+                continue
+            if cur:
+                blocks.append((name, '\n'.join(cur)))
+                cur, name = [], None
+            if starts_item:
+                name = TOP.match(ln).group(2)
+                cur = pending_doc + [ln]
+                pending_doc = []
+            else:
+                if pending_doc:
+                    blocks.append((None, '\n'.join(pending_doc)))
+                    pending_doc = []
+                blocks.append((None, ln))
+            continue
+        if cur:
+            cur.append(ln)
+        else:
+            blocks.append((None, ln))
+    if cur:
+        blocks.append((name, '\n'.join(cur)))
+    return blocks
+
+
+def block_code(text):
+    """the item without comments (doc comments carry line numbers of the header, which move with every edit)"""
+    t = re.sub(r'/-.*?-/', '', text, flags=re.S)
+    t = '\n'.join(l.split('--')[0].rstrip() for l in t.split('\n'))
+    return re.sub(r'\s+', ' ', t).strip()
+
+
+def changed_defs(current_text, baseline_text):
+    cur = {n: block_code(t) for n, t in lean_blocks(current_text) if n}
+    base = {n: block_code(t) for n, t in lean_blocks(baseline_text) if n}
+    return sorted(n for n in set(cur) | set(base) if cur.get(n) != base.get(n))
+
+
+def neutralise(current_text, baseline_text, names):
+    """replace the items `names` of the current file by their baseline text (items missing now are appended before the
+    closing `end`): the result differs from the baseline only in items NOT in `names`"""
+    base = {n: t for n, t in lean_blocks(baseline_text) if n}
+    out, seen = [], set()
+    blocks = lean_blocks(current_text)
+    for n, t in blocks:
+        if n and n in names and n in base:
+            out.append(base[n] + '\n')
+            seen.add(n)
+        elif n and n in names and n not in base:
+            continue          # an item the baseline does not have
+        else:
+            out.append(t)
+    missing = [n for n in names if n in base and n not in seen]
+    if missing:
+        # insert before the last `end` line
+        idx = max(i for i, x in enumerate(out) if x.startswith('end '))
+        out[idx:idx] = [base[n] + '\n' for n in missing]
+    return '\n'.join(out)
+
+
 def main():
     only = [a for a in sys.argv[1:] if not a.startswith('--')]
     save_baseline = '--save-baseline' in sys.argv
@@ -1062,6 +1145,29 @@ def main():
         os.makedirs(BASELINE_DIR, exist_ok=True)
         with open(os.path.join(BASELINE_DIR, 'guards.json'), 'w') as f:
             json.dump(report['guard_record'], f, indent=1, sort_keys=True)
+        for name, _ in GENERATORS:
+            src = os.path.join(GEN, name + '.lean')
+            if os.path.exists(src):
+                with open(os.path.join(BASELINE_DIR, name + '.lean'), 'w') as f:
+                    f.write(open(src).read())
+    # which generated definitions differ from the baseline (the clean tree the proofs were written against)
+    changed = {}
+    for name, _ in GENERATORS:
+        cur, base = os.path.join(GEN, name + '.lean'), os.path.join(BASELINE_DIR, name + '.lean')
+        if os.path.exists(cur) and os.path.exists(base):
+            ch = changed_defs(open(cur).read(), open(base).read())
+            if ch:
+                changed[name] = ch
+    report['changed_vs_baseline'] = changed
+    neut = os.environ.get('VERIF_NEUTRALISE')
+    if neut:
+        # neutralised build: the changed items are given their baseline definitions again, so that theorems which do not
+        # depend on them can be re-checked by the kernel in an otherwise current environment
+        for name, names in changed.items():
+            cur, base = os.path.join(GEN, name + '.lean'), os.path.join(BASELINE_DIR, name + '.lean')
+            text = neutralise(open(cur).read(), open(base).read(), names)
+            write_if_changed(cur, text)
+        report['neutralised'] = changed
     report.pop('guard_record', None)
     with open(os.path.join(GEN, 'translate_report.json'), 'w') as f:
         json.dump(report, f, indent=1)
